@@ -13,9 +13,8 @@ and six oracles are evaluated (DESIGN.md section 6, C03):
 1. round trip     decode(encode(v)) is structurally equal to v (own comparator, vf/ref/C03_cmp.py)
 2. re-encode      encode(decode(octets)) == octets
 3. refusals       a service PDU body with one extra tag is refused with a RejectException
-                  (TooManyArguments where nothing can absorb the tag); a sequence with a
-                  required element missing is refused - by encode, and by decode with a
-                  RejectException
+                  (TooManyArguments where nothing can absorb the tag); a sequence whose
+                  octets lack a required element is refused with a RejectException
 4. differential   the octets equal those of an independent encoder (vf/ref/C03_enc.py)
                   driven by the reference wire schema /verif/ref/asn1_schema.json
 5. registries     every service choice 0..255 maps to the class the schema names, or to none
@@ -28,7 +27,7 @@ from ..ref import C03_enc as E
 from ..ref import C03_gen as G
 from ..ref import C03_cmp as X
 
-from bacpypes.pdu import PDUData
+from bacpypes.pdu import PDU, PDUData
 from bacpypes.errors import RejectException
 from bacpypes import primitivedata as P
 from bacpypes import constructeddata as C
@@ -220,7 +219,7 @@ NROWS = {"q": 5, "t": 8}
 @meta(bounds="one instance per group of classes (class list read from the live apdu / basetypes modules); per class: "
              "part=shapes: top-level presence patterns {all present, all absent, each single optional toggled from "
              "either} (thorough: all 2^n patterns when n <= 6), every alternative of a top-level choice, every top-level "
-             "list length 0..1 (thorough 0..2) independently; below the top level one shared selector - quick: "
+             "list length 0..1 (thorough 0..3) independently; below the top level one shared selector - quick: "
              "{optionals absent + first alternative + empty lists, optionals present + last alternative + lists of 1}; "
              "thorough: optionals {absent, present} x alternative {first, last, middle} x list length {0,1,2} - down to "
              "depth 4 (deeper levels minimal); leaves in leaf class 0: every integer a symbolic one-octet value, "
@@ -232,17 +231,21 @@ NROWS = {"q": 5, "t": 8}
              "(every value of that width, signed ones of either sign), string length 0..2, enumerations {lowest, highest, "
              "one undefined number}, object types {analogInput, device, 300}, floats {72.5, -1.25, 0.0}, bit patterns, "
              "one shared symbolic boolean, Any in {one atomic of 6 datatypes, nested context group [2]{Date Time}, empty, "
-             "two atomics}, AnyAtomic of 8 datatypes",
+             "two atomics}, AnyAtomic of 8 datatypes.  In both parts the first 8 (thorough 16) leaves of a value in "
+             "element order are symbolic, leaves after that take one fixed value of the same leaf class",
       outside="list lengths above the bound; depth > 4; presence patterns beyond the shape bound for classes with more "
               "than 6 optionals and everywhere below the top level; mixed integer widths inside one value (C01 covers "
               "widths); the DateTime form of NameValue.value; character sets other than printable ASCII in UTF-8; "
-              "ArrayOf.encode_item/decode_item (C15)",
-      stubs=[], assumes=["a class the reference schema does not know gets oracles 1-3 only"])
+              "ArrayOf.encode_item/decode_item (C15); in values with more than 8 (16) leaves, other values of the later "
+              "leaves",
+      stubs=[], assumes=["a class the reference schema does not know gets oracles 1-3 only",
+                         "where the tree's octets equal the reference octets the decoders are run on the reference's "
+                         "buffer (same octets, flat representation)"])
 def cls_rt(d, group, tier):
     K = d.pick(GROUPS[tier][group], "cls")
     part = d.pick(["shapes", "leaves"], "part")
     thorough = tier == "t"
-    g = G.Gen(d, thorough, 2 if thorough else 1, HINTS, 16 if thorough else 8)
+    g = G.Gen(d, thorough, 3 if thorough else 1, HINTS, 16 if thorough else 8)
     d.note(cls=K.__name__, part=part)
     if part == "shapes":
         M = g.top(K, "all")
@@ -279,7 +282,7 @@ def cls_refuse(d, group, tier):
     cname = K.__name__
     part = d.pick(refuse_parts(K), "part")
     thorough = tier == "t"
-    g = G.Gen(d, thorough, 2 if thorough else 1, HINTS, 16 if thorough else 8)
+    g = G.Gen(d, thorough, 2 if thorough else 1, HINTS, 8)
     d.note(cls=cname, part=part)
     if part == "trailing":
         M = g.top(K, "full" if d.index(2, "base") == 1 else "min")
@@ -497,7 +500,6 @@ def annexf(d):
     Mp = E.model_from_json(ex["value"], pub)
     full = bytes.fromhex(ex["apci"]) + bytes(E.body_from_json(ex["body"], pub))
     try:
-        from bacpypes.pdu import PDU
         apdu = A.APDU()
         apdu.decode(PDU(full))
         cls = BYTYPE[apdu.apduType].get(apdu.apduService)
@@ -535,7 +537,7 @@ def leaves_of(k, depth=0):
 def paths_of(K, tier):
     """rough number of paths of one class in cls_rt"""
     t = tier == "t"
-    maxlen = 2 if t else 1
+    maxlen = 3 if t else 1
     nested = any(not (issubclass(e.klass, P.Atomic)) for e in G.elements_of(K))
     inner = (6 if t else 2) if nested else 1
     if issubclass(K, C.Choice):
@@ -585,11 +587,12 @@ def make_groups(classes, est, tier, target, solo):
 SOLO_RT = set(["PropertyStates", "LogData", "NotificationParametersExtendedParametersType",
                "NotificationParametersExtended", "NotificationParameters", "ReadAccessResult",
                "AtomicReadFileACKAccessMethodChoice", "AtomicWriteFileRequestAccessMethodChoice",
-               "AtomicReadFileACK", "AtomicWriteFileRequest", "DeviceCommunicationControlRequest"])
+               "AtomicReadFileACK", "AtomicWriteFileRequest", "DeviceCommunicationControlRequest",
+               "LogMultipleRecord"])
 SOLO_REFUSE = set(["Destination", "SpecialEvent", "ReadRangeRequest"])
 
 GROUPS = {"q": make_groups(CLASSES, estimate, "q", 30, SOLO_RT),
-          "t": make_groups(CLASSES, estimate, "t", 400, SOLO_RT)}
+          "t": make_groups(CLASSES, estimate, "t", 100, SOLO_RT)}
 REFUSERS = [K for K in CLASSES if refuse_parts(K)]
 RGROUPS = {"q": make_groups(REFUSERS, estimate_refuse, "q", 30, SOLO_REFUSE),
            "t": make_groups(REFUSERS, estimate_refuse, "t", 30, SOLO_REFUSE)}
@@ -602,12 +605,62 @@ def _span(grp):
 def instances(tier):
     q = tier == "quick"
     t = "q" if q else "t"
+    pt = 60 if q else 180
     out = []
     for i, grp in enumerate(GROUPS[t]):
-        out.append(Inst(cls_rt, dict(group=i, tier=t), budget=240 if q else 1500, label="%d:%s" % (i, _span(grp))))
+        out.append(Inst(cls_rt, dict(group=i, tier=t), budget=240 if q else 1500, path_timeout=pt,
+                        label="%d:%s" % (i, _span(grp))))
     for i, grp in enumerate(RGROUPS[t]):
-        out.append(Inst(cls_refuse, dict(group=i, tier=t), budget=120 if q else 300, label="%d:%s" % (i, _span(grp))))
-    out.append(Inst(lists_rt, dict(tier=t), budget=120 if q else 600))
+        out.append(Inst(cls_refuse, dict(group=i, tier=t), budget=120 if q else 600, path_timeout=pt,
+                        label="%d:%s" % (i, _span(grp))))
+    out.append(Inst(lists_rt, dict(tier=t), budget=120 if q else 600, path_timeout=pt))
     out.append(Inst(registries, {}, budget=60))
     out.append(Inst(annexf, {}, budget=60))
     return out
+
+
+# ---------------------------------------------------------------- plain-Python self-test
+def selftest():
+    """DESIGN 4.2.  (a) the reference encoder, driven by the schema, reproduces the hand-derived
+    octets of every Annex F example (reference vs. hand derivation, no bacpypes involved);
+    (b) every harness runs concretely on the published values / on fixed draws and passes
+    or reports only what the engine reports too.  Returns a list of disagreements.
+
+        python3-vt -c "from vf.api import repo_setup; repo_setup(); from vf.harness import C03; print(C03.selftest())"
+    """
+    from ..api import run_concrete
+    bad = []
+    for i, ex in enumerate(ANNEXF):
+        pub = E.published_slots(ex)
+        M = E.model_from_json(ex["value"], pub)
+        want = bytes(E.body_from_json(ex["body"], pub))
+        try:
+            got = bytes(ENC.production(ex["class"], M))
+        except Exception as e:
+            bad.append(("reference cannot encode", ex["id"], repr(e)))
+            continue
+        if got != want:
+            bad.append(("reference vs hand-derived octets", ex["id"], got.hex(), want.hex()))
+        draws = [("example", i)]
+        for name in sorted(ex["slots"]):
+            sl = ex["slots"][name]
+            v = sl["published"]
+            if sl["kind"] == "chars":
+                draws += [(name, ord(c)) for c in v]
+            elif sl["kind"] == "quad":
+                draws += [(name, x) for x in v]
+            else:
+                draws.append((name, v))
+        r = run_concrete(annexf, {}, [d for d in draws if len(ANNEXF) > 1 or d[0] != "example"])
+        if r["outcome"] != "ok":
+            bad.append(("annexf harness on published values", ex["id"], r))
+    # the literals of tests/test_constructed_data/test_sequence_of.py / test_any.py style:
+    # empty and one-element lists of integers, through the list harness's reference
+    for items, hexs in (([], ""), ([1], "2101"), ([1, 2], "21012102")):
+        M = ("list", [("atom", "Unsigned", v, None) for v in items])
+        got = []
+        for it in M[1]:
+            got += ENC.value("Unsigned", None, it, ("selftest", "item"))
+        if bytes(got).hex() != hexs:
+            bad.append(("reference list encoding", items, bytes(got).hex(), hexs))
+    return bad
